@@ -19,7 +19,9 @@ TRUSTED = ["SV.PyOp / SV.PyMode (Model/Discretise.lean) as the meaning of Python
            "Model/C08.lean: list-level model of .sum(dim)/.mean(dim) (skipna) and of the threshold loop of binary_discretise",
            "xarray broadcasting / reductions (compared, not modelled beyond flattening)"]
 ASSUMPTIONS = ["data, thresholds and tolerances are dyadic (k/4) so every comparison and threshold±tolerance is exact in float64",
-               "infinite data / thresholds are outside the property theorems (model and implementation are still compared on them)",
+               "+inf / -inf are valid, comparable values: contingency counts (theorems hold for every Fl) and the order relations / unequal "
+               "values of discretisation (theorem disc_eq_specX, Spec.discX) cover them; only '==' / '!=' between two EQUAL infinities "
+               "is outside the property's domain (notes/C08.md N-C08-1; model and implementation are still compared on it)",
                "Dataset inputs and dask arrays are not generated"]
 MANIFEST = dict(
     level="proof",
@@ -36,14 +38,16 @@ MANIFEST = dict(
          "overflow, signed zero); SV.PyOp/PyMode as the meaning of operator functions and of `in`/`is` on the mode; the "
          "list-level hand model (Model/C08.lean) of .sum/.mean(skipna), of the threshold loop, monotonicity guard and total = "
          "tp+tn+fp+fn, which is compared with the implementation, not translated. Not modelled: Dataset/dask inputs, attrs, "
-         "autosqueeze bookkeeping (shape only compared), gather_dimensions (C01); infinite data/thresholds are compared but "
-         "outside the theorems (|inf-inf| is NaN, so '==' of equal infinities is 0).",
+         "autosqueeze bookkeeping (shape only compared), gather_dimensions (C01); '=='/'!=' between two equal infinities is compared "
+         "but outside the theorems (|inf-inf| is NaN, so '==' of equal infinities is 0); every other use of +inf/-inf (data, "
+         "thresholds, event thresholds with order relations) is inside.",
     technique="Lean 4 theorems over translator-regenerated definitions + differential correspondence + property oracle "
               "(when the source leaves the translatable subset the generator substitutes the hand-written fallback model "
               "tools/gen/_fallback_*.lean for that definition, records it as inapplicable, and the correspondence carries it)",
     design="6/C08")
 RULE = ("cases drawn from a dyadic pool with 50 % of data values placed on / within / just outside tolerance of a threshold, "
-        "NaN in every slot, all 12 mode spellings, thresholds 0 and negative for the event operator; distinct = distinct "
+        "NaN in every slot, +inf / -inf among data, discretisation thresholds, forecasts, observations (half of the table cases) and "
+        "event thresholds (order relations only), all 12 mode spellings, thresholds 0 and negative for the event operator; distinct = distinct "
         "canonical input; non-trivial = at least one non-NaN output and not in the malformed stream")
 
 STR2OP = {">=": "ge", ">": "gt", "<=": "le", "<": "lt", "==": "eq", "!=": "ne"}
@@ -135,7 +139,9 @@ def disc_result_matches(res, model):
 
 
 # ----------------------------------------------------------------------------- generators
-def gen_disc_case(rng, malformed_ok=True, finite_only=False):
+def gen_disc_case(rng, malformed_ok=True, finite_only=False, infs=False):
+    """infs=True: the extended reals — +inf / -inf among the data (25 %) and as lowest / highest threshold
+    (valid, comparable values; the threshold list stays monotone and never repeats an infinity)"""
     nthr = rng.choice([1, 1, 2, 3])
     base = sorted(core.dyadic(rng, -4, 4) for _ in range(nthr))
     if rng.random() < 0.25:
@@ -143,14 +149,25 @@ def gen_disc_case(rng, malformed_ok=True, finite_only=False):
         base.sort()
     if nthr > 1 and rng.random() < 0.25:
         base[1] = base[0]                       # repeated threshold (still monotone)
+    fin_base = list(base)
+    if infs:
+        r = rng.random()
+        if r < 0.3:
+            base[0] = -math.inf
+        elif r < 0.6:
+            base[-1] = math.inf
+        elif r < 0.7 and nthr > 1:
+            base[0], base[-1] = -math.inf, math.inf
     tol = rng.choice(["omit", None, 0, 0.0, 0.25, 0.5, 1.0, 1, 2.0])
     tv = 0.0 if tol in ("omit", None) else float(tol)
     n = rng.randint(1, 6)
     data = []
     for _ in range(n):
         r = rng.random()
-        if r < 0.5:
-            c = rng.choice(base)
+        if infs and rng.random() < 0.25:
+            data.append(rng.choice([math.inf, -math.inf]))
+        elif r < 0.5:
+            c = rng.choice(fin_base)
             data.append(c + rng.choice([0, tv, -tv, tv + 0.25, -tv - 0.25, tv - 0.25, -tv + 0.25, 0.25, -0.25]))
         elif r < 0.65:
             data.append(NAN)
@@ -545,6 +562,8 @@ def oracle_disc_case(ctx, batch, c, spec_rows, res=None):
     desc = {k: c[k] for k in ("fn", "data", "comp", "mode", "tol", "scalar")}
     rel = rel_of(c["mode"])
     tags = {"mode": str(c["mode"]["v"]), "rel": rel, "fn": c["fn"]}
+    if any(math.isinf(v) for v in list(c["data"]) + list(c["comp"])):
+        tags["infinite"] = "yes"
     res = res or run_disc_case(c)
     site = "processing." + c["fn"] + "_discretise"
     if res[0] != "ok":
@@ -574,6 +593,8 @@ def oracle_disc_case(ctx, batch, c, spec_rows, res=None):
                 a, b = res[1][i][j], r3[1][i][j]
                 if math.isnan(x) or math.isnan(t):
                     good = good and math.isnan(a) and math.isnan(b)
+                elif rel in ("eq", "ne") and math.isinf(x) and x == t:
+                    continue                      # '==' / '!=' between equal infinities: N-C08-1, outside the domain
                 else:
                     good = good and (a + b == 1.0) and a in (0.0, 1.0)
     if not good:
@@ -585,7 +606,7 @@ def oracle_disc_case(ctx, batch, c, spec_rows, res=None):
 
 def spec_op(c):
     tol = c["tol"]
-    return {"op": "c08.spec", "args": {"data": fls(c["data"]), "comparison": fls(c["comp"]), "rel": rel_of(c["mode"]),
+    return {"op": "c08.specx", "args": {"data": fls(c["data"]), "comparison": fls(c["comp"]), "rel": rel_of(c["mode"]),
                                        "tol": "0" if tol in ("omit", None) else core.fl_str(tol)}}
 
 
@@ -598,6 +619,22 @@ def oracle(ctx, boost):
         c = gen_disc_case(rng, malformed_ok=False, finite_only=True)
         c["int_scalar"] = rng.random() < 0.5
         cases.append(c)
+    # the extended reals: +inf / -inf as data and as thresholds are valid, comparable values (Spec.discX)
+    for _ in range(ctx.n(80, 1500) * mult):
+        c = gen_disc_case(rng, malformed_ok=False, finite_only=True, infs=True)
+        c["int_scalar"] = rng.random() < 0.5
+        cases.append(c)
+    xgrid = [-math.inf, -0.25, 0.0, 0.25, math.inf, NAN]
+    for name in COMPL:
+        for kind in ("str", "op"):
+            for tol in ("omit", 0.25):
+                mode = {"k": "str", "v": OP2STR[name]} if kind == "str" else {"k": "op", "v": name}
+                cases.append({"fn": "comparative", "data": xgrid, "comp": [-math.inf, 0.0, math.inf, NAN], "mode": mode,
+                              "tol": tol, "scalar": False, "malformed": None})
+                cases.append({"fn": "binary", "data": xgrid, "comp": [-math.inf, 0.0, math.inf], "mode": mode,
+                              "tol": tol, "scalar": False, "malformed": None})
+    ctx.exhaustive.append("oracle: 12 spellings x tolerance {none, 1/4} x data {-inf, -1/4, 0, 1/4, inf, NaN} x thresholds "
+                          "{-inf, 0, inf(, NaN)}, both functions")
     grid = [k / 4 for k in range(-8, 9)] + [NAN]
     for name in COMPL:
         for kind in ("str", "op"):
@@ -611,6 +648,8 @@ def oracle(ctx, boost):
     spec = core.run_driver("C08S", [spec_op(c) for c in cases])
     for c, s in zip(cases, spec):
         ctx.case("discretise-vs-definition", {k: c[k] for k in ("fn", "data", "comp", "mode", "tol", "scalar")})
+        if any(math.isinf(v) for v in list(c["data"]) + list(c["comp"])):
+            ctx.tag("oracle-disc:infinite")
         oracle_disc_case(ctx, "discretise-vs-definition", c, s)
     # 2. proportion = share of valid data in the event category
     from scores.processing import binary_discretise_proportion
